@@ -8,6 +8,7 @@ history runs; fail-closed for dynamic attribute names (setattr / getattr with a 
 import ast
 
 from . import frame as F
+from ..repo_root import REPO
 
 
 def _fitted(name):
@@ -92,7 +93,7 @@ class Order(ast.NodeVisitor):
             self.visit(s)
 
 
-def analyse(root="/repo/skactiveml", entry="fit"):
+def analyse(root=REPO + "/skactiveml", entry="fit"):
     classes = F.load_package(root)
     out = []
     for cname in sorted(classes):
@@ -155,7 +156,7 @@ REVIEWED = {
 }
 
 
-def sites(root="/repo/skactiveml"):
+def sites(root=REPO + "/skactiveml"):
     """-> list of (class, file, attr, line, kind, ok): one row per class with fit and no history read, one per history read otherwise"""
     rows = []
     for e in analyse(root):
